@@ -252,5 +252,6 @@ func verifC17AddressForms() {
 	if f.addr[0] == 'b' {
 		vAssert(errors.Is(err, ErrServerFailure), "the resolution failure of the other name is part of the returned error")
 	}
+	vAssert(vQuiesce() == 0, "no goroutine is left behind (a name that failed to resolve included)")
 	vReach("address-forms")
 }
